@@ -117,6 +117,12 @@ func (s *V2SessionlessTransport) newV2Session(ctx context.Context, opts *V2Sessi
 			openSessionRsp.ConfidentialityPayload.Algorithm,
 			cipherSuite)
 	}
+	if cipherSuite.IntegrityAlgorithm == ipmi.IntegrityAlgorithmNone ||
+		cipherSuite.ConfidentialityAlgorithm == ipmi.ConfidentialityAlgorithmNone {
+		// sessions currently sign and encrypt every packet unconditionally
+		return nil, fmt.Errorf("cipher suites without integrity or confidentiality are not supported: %v",
+			cipherSuite)
+	}
 
 	// RAKP Message 1, 2
 	remoteConsoleRandom := [16]byte{}
